@@ -498,7 +498,7 @@ func handleOps(k, S, level int) []string {
 	for _, s := range seeks {
 		add("SK %s %d %d", ks, s[0], s[1])
 	}
-	for _, sz := range uniqInts([]int{-1, 0, S - 1, S, S + 7}) {
+	for _, sz := range uniqInts([]int{-1, 0, S - 1, S, S + 1, S + 7}) {
 		add("TR %s %d", ks, sz)
 	}
 	add("ST %s", ks)
@@ -513,7 +513,7 @@ func handleOps(k, S, level int) []string {
 func pathOps(S, level int) []string {
 	a, b := tok("a"), tok("b")
 	out := []string{"PRN " + a + " " + b, "PRN " + b + " " + a, "PLN " + a + " " + b, "PRM " + a, "PRM " + b}
-	for _, sz := range uniqInts([]int{-1, 0, S - 1, S + 7}) {
+	for _, sz := range uniqInts([]int{-1, 0, S - 1, S + 1, S + 7}) {
 		out = append(out, fmt.Sprintf("PT %s %d", a, sz))
 	}
 	if level == 2 {
@@ -614,10 +614,16 @@ func (e *fioExplorer) explore(config []string, depth, level int) {
 }
 
 // ---- random histories -------------------------------------------------------------------
-func fioRandomHistory(r *rng, steps int) fioRun {
+// fioRandomHistory: a random history.  avoid = true keeps away from the call shapes of the known findings
+// (zero-length transfers, O_APPEND opens of a non-empty file, WriteAt on O_APPEND handles, argument errors on
+// closed handles, dropping the last link of an open file) so that the comparison with os.File runs to the end
+// of the history; what is a known finding is still decided by the extracted classifier, not here.
+func fioRandomHistory(r *rng, steps int, avoid bool) fioRun {
 	t := newFioTrio()
 	defer t.cleanup()
 	var ops, outs []string
+	var flags []int // per descriptor
+	var closed []bool
 	do := func(op string) {
 		ops = append(ops, op)
 		outs = append(outs, t.step(op))
@@ -625,29 +631,79 @@ func fioRandomHistory(r *rng, steps int) fioRun {
 	for _, op := range fioPrefix {
 		do(op)
 	}
+	flags, closed = []int{66}, []bool{true}
+	sizeOf := func(name string) int {
+		if fi, err := os.Stat(t.osw.p(name)); err == nil {
+			return int(fi.Size())
+		}
+		return 0
+	}
+	lastLink := func(name string) bool {
+		fi, err := os.Stat(t.osw.p(name))
+		return err == nil && fi.Sys().(*syscall.Stat_t).Nlink == 1
+	}
 	for len(ops) < steps {
 		S := t.refSize()
 		nh := len(t.osw.handles)
 		open := 0
-		for _, f := range t.osw.handles {
-			if _, err := f.Stat(); err == nil {
+		for _, c := range closed {
+			if !c {
 				open++
 			}
 		}
 		switch k := r.intn(20); {
 		case (k < 3 || open == 0) && open < 3 && nh < 8:
-			do(fmt.Sprintf("OP %s %d 420", tok(r.pick(fioNames)), fioOpenFlags[r.intn(len(fioOpenFlags))]))
+			name := r.pick(fioNames)
+			fl := fioOpenFlags[r.intn(len(fioOpenFlags))]
+			if avoid && fl&os.O_APPEND != 0 && fl&os.O_TRUNC == 0 && sizeOf(name) > 0 {
+				fl |= os.O_TRUNC
+			}
+			do(fmt.Sprintf("OP %s %d 420", tok(name), fl))
+			if len(t.osw.handles) > nh {
+				flags = append(flags, fl)
+				closed = append(closed, false)
+			}
 		case k < 6:
 			po := pathOps(S, 2)
-			do(po[r.intn(len(po))])
+			op := po[r.intn(len(po))]
+			if avoid {
+				f := strings.Fields(op)
+				switch f[0] {
+				case "PRM":
+					if lastLink(untok(f[1])) {
+						continue
+					}
+				case "PRN":
+					if lastLink(untok(f[2])) || f[1] == f[2] {
+						continue
+					}
+				case "PT":
+					if atoi(f[2]) < 0 {
+						continue
+					}
+				}
+			}
+			do(op)
 		default:
 			h := r.intn(nh)
 			ho := handleOps(h, S, 2)
 			op := ho[r.intn(len(ho))]
-			if strings.HasPrefix(op, "CL ") && r.chance(2, 3) {
+			f := strings.Fields(op)
+			if f[0] == "CL" && r.chance(2, 3) {
 				op = "ST " + strconv.Itoa(h) // closes are kept rare: a closed handle stays closed
 			}
+			if avoid {
+				zero := (f[0] == "R" || f[0] == "RA") && f[2] == "0" || (f[0] == "W" || f[0] == "WA" || f[0] == "WS") && f[2] == "s"
+				app := f[0] == "WA" && flags[h]&os.O_APPEND != 0
+				clo := closed[h] && (f[0] == "TR" && atoi(f[2]) < 0 || f[0] == "RA" && atoi(f[3]) < 0)
+				if zero || app || clo {
+					continue
+				}
+			}
 			do(op)
+			if f[0] == "CL" && strings.HasPrefix(op, "CL") {
+				closed[h] = true
+			}
 		}
 	}
 	return fioRun{ops: ops, outs: outs}
@@ -956,7 +1012,7 @@ func runFileIO(cfg config) {
 		nr = 600
 	}
 	rruns := parallelMap(nr, func(i int) fioRun {
-		return fioRandomHistory(&rng{s: cfg.seed*104729 + 7 + uint64(i+1)*7919}, 300)
+		return fioRandomHistory(&rng{s: cfg.seed*104729 + 7 + uint64(i+1)*7919}, 300, i%4 != 0)
 	})
 	for _, rr := range rruns {
 		e.emitRun(rr, false)
